@@ -40,9 +40,10 @@ type context struct {
 	store     *py.ModuleStore
 	opts      py.ContextOpts
 	closeOnce sync.Once
-	closing   bool
-	closed    bool
-	running   sync.WaitGroup
+	mu        sync.Mutex // guards running and closed
+	idle      *sync.Cond // signalled (with mu held) when running drops to zero
+	running   int        // executions admitted and not yet finished
+	closed    bool       // set by Close in the critical section that observes running == 0
 	done      chan struct{}
 }
 
@@ -51,11 +52,11 @@ type context struct {
 // See interface py.Context defined in py/run.go
 func NewContext(opts py.ContextOpts) py.Context {
 	ctx := &context{
-		opts:    opts,
-		done:    make(chan struct{}),
-		closing: false,
-		closed:  false,
+		opts:   opts,
+		done:   make(chan struct{}),
+		closed: false,
 	}
+	ctx.idle = sync.NewCond(&ctx.mu)
 
 	ctx.store = py.NewModuleStore()
 
@@ -71,10 +72,10 @@ func NewContext(opts py.ContextOpts) py.Context {
 // ModuleInit digests a ModuleImpl, compiling and marshalling as needed, creating a new Module instance in this Context.
 func (ctx *context) ModuleInit(impl *py.ModuleImpl) (*py.Module, error) {
 	err := ctx.pushBusy()
-	defer ctx.popBusy()
 	if err != nil {
 		return nil, err
 	}
+	defer ctx.popBusy()
 
 	if impl.Code == nil && len(impl.CodeSrc) > 0 {
 		impl.Code, err = py.Compile(string(impl.CodeSrc), impl.Info.FileDesc, py.ExecMode, 0, true)
@@ -113,10 +114,10 @@ func (ctx *context) ModuleInit(impl *py.ModuleImpl) (*py.Module, error) {
 // See interface py.Context defined in py/run.go
 func (ctx *context) ResolveAndCompile(pathname string, opts py.CompileOpts) (py.CompileOut, error) {
 	err := ctx.pushBusy()
-	defer ctx.popBusy()
 	if err != nil {
 		return py.CompileOut{}, err
 	}
+	defer ctx.popBusy()
 
 	tryPaths := defaultPaths
 	if opts.UseSysPaths {
@@ -193,23 +194,35 @@ func (ctx *context) ResolveAndCompile(pathname string, opts py.CompileOpts) (py.
 }
 
 func (ctx *context) pushBusy() error {
+	ctx.mu.Lock()
+	defer ctx.mu.Unlock()
 	if ctx.closed {
 		return py.ExceptionNewf(py.RuntimeError, "Context closed")
 	}
-	ctx.running.Add(1)
+	ctx.running++
 	return nil
 }
 
 func (ctx *context) popBusy() {
-	ctx.running.Done()
+	ctx.mu.Lock()
+	defer ctx.mu.Unlock()
+	ctx.running--
+	if ctx.running == 0 {
+		ctx.idle.Broadcast()
+	}
 }
 
 // See interface py.Context defined in py/run.go
 func (ctx *context) Close() error {
 	ctx.closeOnce.Do(func() {
-		ctx.closing = true
-		ctx.running.Wait()
+		// Wait for every admitted execution to finish and, in the same
+		// critical section, refuse all later ones.
+		ctx.mu.Lock()
+		for ctx.running > 0 {
+			ctx.idle.Wait()
+		}
 		ctx.closed = true
+		ctx.mu.Unlock()
 
 		// Give each module a chance to release resources
 		ctx.store.OnContextClosed()
@@ -279,10 +292,10 @@ func resolveRunPath(runPath string, opts py.CompileOpts, pathObjs []py.Object, t
 // See interface py.Context defined in py/run.go
 func (ctx *context) RunCode(code *py.Code, globals, locals py.StringDict, closure py.Tuple) (py.Object, error) {
 	err := ctx.pushBusy()
-	defer ctx.popBusy()
 	if err != nil {
 		return nil, err
 	}
+	defer ctx.popBusy()
 
 	return vm.EvalCode(ctx, code, globals, locals, nil, nil, nil, nil, closure)
 }
